@@ -1121,6 +1121,12 @@ class tensor:
         if isinstance(U, ttb.ktensor):
             weights = U.weights
             U = U.factor_matrices
+        if len(U) != self.ndims:
+            assert False, "List of factor matrices is the wrong length"
+        if not all(
+            U[i].shape == (self.shape[i], U[0].shape[1]) for i in range(self.ndims)
+        ):
+            assert False, "Factor matrices must be of size (shape[i], R)"
         split_idx = min_split(self.shape)
         V = [np.empty_like(self.data, shape=())] * self.ndims
         K = ttb.khatrirao(*U[split_idx + 1 :], reverse=True)
